@@ -33,9 +33,18 @@ fn read_arg(b: &[u8], pos: &mut usize) -> Option<(u8, u64, usize)> {
     let (arg, hl) = match ai {
         0..=23 => (ai as u64, 1),
         24 => (*b.get(*pos + 1)? as u64, 2),
-        25 => (u16::from_be_bytes(b.get(*pos + 1..*pos + 3)?.try_into().ok()?) as u64, 3),
-        26 => (u32::from_be_bytes(b.get(*pos + 1..*pos + 5)?.try_into().ok()?) as u64, 5),
-        27 => (u64::from_be_bytes(b.get(*pos + 1..*pos + 9)?.try_into().ok()?), 9),
+        25 => (
+            u16::from_be_bytes(b.get(*pos + 1..*pos + 3)?.try_into().ok()?) as u64,
+            3,
+        ),
+        26 => (
+            u32::from_be_bytes(b.get(*pos + 1..*pos + 5)?.try_into().ok()?) as u64,
+            5,
+        ),
+        27 => (
+            u64::from_be_bytes(b.get(*pos + 1..*pos + 9)?.try_into().ok()?),
+            9,
+        ),
         _ => return None, // indefinite lengths are never emitted by ciborium for these types
     };
     Some((major, arg, hl))
@@ -43,7 +52,13 @@ fn read_arg(b: &[u8], pos: &mut usize) -> Option<(u8, u64, usize)> {
 
 /// Walk one item starting at `*pos`; returns `Some(byte value)` when the item is an unsigned
 /// integer below 256 (so that arrays of such items can be recognised as nested byte strings).
-fn item(b: &[u8], map: &[usize], pos: &mut usize, hot: &mut Vec<usize>, depth: usize) -> Option<Option<(u8, usize)>> {
+fn item(
+    b: &[u8],
+    map: &[usize],
+    pos: &mut usize,
+    hot: &mut Vec<usize>,
+    depth: usize,
+) -> Option<Option<(u8, usize)>> {
     let start = *pos;
     let (major, arg, hl) = read_arg(b, pos)?;
     match major {
@@ -101,7 +116,9 @@ fn item(b: &[u8], map: &[usize], pos: &mut usize, hot: &mut Vec<usize>, depth: u
                 let mut probe = 1usize;
                 let mut scratch = Vec::new();
                 let id: Vec<usize> = (0..bytes.len()).collect();
-                if item(&bytes, &id, &mut probe, &mut scratch, depth + 1).is_some() && probe == bytes.len() {
+                if item(&bytes, &id, &mut probe, &mut scratch, depth + 1).is_some()
+                    && probe == bytes.len()
+                {
                     walk(&bytes, &sub_map, hot, depth + 1);
                 }
             }
